@@ -56,6 +56,7 @@ pub fn replay(prop: &str, part: &str, case: &serde_json::Value) -> Option<CaseRe
         ("C02", "synctest") | ("C13", _) => c13::replay(part, case)?,
         ("C02", _) => c02::eval(&sc()?),
         ("C03", "drops") => c03::eval_drops(&sc()?),
+        ("C03", "stale_session") => c03::eval_stale(&sc()?),
         ("C03", _) => c03::eval(&sc()?),
         ("C14", _) => c14::replay(part, case)?,
         ("C15", "level_after_drop") => c15::eval_after_drop(&sc()?),
